@@ -37,6 +37,7 @@ type Case struct {
 	// json / form / multipart / text
 	Schema   string `json:"schema,omitempty"`
 	Encoding string `json:"encoding,omitempty"` // raw JSON of the media type's encoding map
+	Defaults bool   `json:"defaults,omitempty"` // validate with default-setting on (the library's default) instead of skipped
 	Value    string `json:"value,omitempty"`
 	Rep      string `json:"rep,omitempty"`
 	NoRO     bool   `json:"exclude_readonly,omitempty"`
@@ -105,6 +106,9 @@ func docWithBody(rb M) (*openapi3.T, error) {
 	return kinx.Load(kinx.Doc(M{"/r": M{"post": op}}, nil))
 }
 
+// defaultsOn is set per case (the harness evaluates one case at a time per process).
+var defaultsOn bool
+
 func validateBody(o *h.Outcome, doc *openapi3.T, header string, body []byte, noBody bool, opts *openapi3filter.Options) (error, bool) {
 	route, _ := kinx.Route(doc, "/r", "POST")
 	var req *http.Request
@@ -119,7 +123,9 @@ func validateBody(o *h.Outcome, doc *openapi3.T, header string, body []byte, noB
 	if opts == nil {
 		opts = &openapi3filter.Options{}
 	}
-	opts.SkipSettingDefaults = true
+	// default-setting (on unless skipped) must not change a verdict: the only defaults the generated
+	// schemas carry sit on read-only properties, which a request never receives
+	opts.SkipSettingDefaults = !defaultsOn
 	in := &openapi3filter.RequestValidationInput{Request: req, Route: route, Options: opts}
 	var e1, e2 error
 	if !o.Guarded("ValidateRequestBody", func() {
@@ -317,6 +323,8 @@ func encode(mode string, v any, encoding M) ([]byte, string, bool) {
 }
 
 func checkDecode(c Case) (o h.Outcome) {
+	defaultsOn = c.Defaults
+	defer func() { defaultsOn = false }()
 	var schema M
 	_ = json.Unmarshal([]byte(c.Schema), &schema)
 	var encoding M
@@ -648,7 +656,7 @@ func gen(t *rapid.T) Case {
 			s = composeForm(t, s)
 		}
 		mode := rapid.SampledFrom([]string{"form", "multipart"}).Draw(t, "family")
-		c := Case{Mode: mode, Schema: jv.Canon(s), Value: jv.Canon(v), NoRO: rapid.Bool().Draw(t, "noro")}
+		c := Case{Mode: mode, Schema: jv.Canon(s), Value: jv.Canon(v), NoRO: rapid.Bool().Draw(t, "noro"), Defaults: rapid.Bool().Draw(t, "defaults")}
 		if len(enc) > 0 && mode == "form" {
 			c.Encoding = jv.Canon(enc)
 		}
